@@ -353,7 +353,8 @@ def finish(prop, tier, res, t0, level="model_checking", rule="", assumptions=(),
     violations = []
     known_hit = []
     for sig, fl in sorted(by_sig.items()):
-        kn = [t for (s, t) in known if s == sig]
+        # exact signature, or a family '<prefix>*' (one defect that surfaces under several oracle kinds)
+        kn = [t for (s, t) in known if s == sig or (s.endswith("*") and sig.startswith(s[:-1]))]
         if kn:
             known_hit.append((sig, kn[0], len(fl)))
             continue
